@@ -132,6 +132,8 @@ type Obs struct {
 	DHooks    int `json:"dHooks"`
 	DNotes    int `json:"dNotes"`
 	DCrds     int `json:"dCrds"` // CRD chunks of the IncludeCRDs renders
+	// the same with the chunks that belong to one chart brought into sorted order first
+	DCrdsCanon int `json:"dCrdsCanon"`
 	DEngine   int `json:"dEngine"`
 	DErr      int `json:"dErr"`
 	DErrText  int `json:"dErrText"` // distinct error messages (which file is blamed is part of the outcome)
